@@ -21,11 +21,11 @@ var c07EntryAssumptions = map[string][]string{
 	// ParsePorts and before any endpoint's HandlePacket (C09/D2 site table, exact argument terms);
 	// rule P2-contract shows MinimumPacketSize() of the protocol under which the endpoint type is
 	// registered is the constant used here.
-	"(*tcp.endpoint).HandlePacket":                       {"len(buffer.VectorisedView.First($3)) >= 20"},
-	"(*tcp.protocol).HandleUnknownDestinationPacket":     {"len(buffer.VectorisedView.First($3)) >= 20"},
-	"(*tcp.Forwarder).HandlePacket":                      {"len(buffer.VectorisedView.First($3)) >= 20"},
-	"(*udp.endpoint).HandlePacket":                       {"len(buffer.VectorisedView.First($3)) >= 8"},
-	"(*udp.protocol).HandleUnknownDestinationPacket":     {"len(buffer.VectorisedView.First($3)) >= 8"},
+	"(*tcp.endpoint).HandlePacket":                   {"len(buffer.VectorisedView.First($3)) >= 20"},
+	"(*tcp.protocol).HandleUnknownDestinationPacket": {"len(buffer.VectorisedView.First($3)) >= 20"},
+	"(*tcp.Forwarder).HandlePacket":                  {"len(buffer.VectorisedView.First($3)) >= 20"},
+	"(*udp.endpoint).HandlePacket":                   {"len(buffer.VectorisedView.First($3)) >= 8"},
+	"(*udp.protocol).HandleUnknownDestinationPacket": {"len(buffer.VectorisedView.First($3)) >= 8"},
 	// NIC.DeliverTransportControlPacket tests len(vv.First()) >= 8 (rule P2-control)
 	"(*tcp.endpoint).HandleControlPacket": {"len(buffer.VectorisedView.First($4)) >= 8"},
 	"(*udp.endpoint).HandleControlPacket": {"len(buffer.VectorisedView.First($4)) >= 8"},
@@ -78,17 +78,17 @@ func propC07(c *Ctx) {
 	// ---------------------------------------------------------------- P1 panics
 	p1 := c.Rule("P1", "K3 enumeration", "explicit panics in the inbound context are reviewed", 8)
 	panicTable := map[string]string{
-		`(*stack.NIC).removeEndpointLocked/"Reference count dropped to zero before being removed"`:                 "assumed: the count reaches zero only after RemoveAddress/getRef/findEndpoint cleared holdsInsertRef; the replace path of addAddressLocked runs only after tryIncRef failed (reading, DESIGN.md C07/P1)",
-		`(*stack.linkAddrCache).checkLinkRequest/invalid cache entry state`:                                         "exhaustive: rule P1-enum shows the switch covers every entryState constant",
-		`(*stack.linkAddrCache).get/invalid cache entry state`:                                                      "exhaustive: rule P1-enum shows the switch covers every entryState constant",
-		`(*stack.linkAddrEntry).changeState/invalid state transition`:                                               "typestate: C12/T2 shows every changeState call site requests an allowed transition",
-		`(*stack.linkAddrEntry).changeState/invalid state`:                                                         "exhaustive: rule P1-enum shows the switch covers every entryState constant",
-		`(*tcp.endpoint).makeOptions/"unexpected option encoding"`:                                                  "assumed: option encoders return multiples of 4 after padding (C06/E5 argument: optionPool buffers have len=cap=maxOptionSize)",
-		`tcp.makeSynOptions/"unexpected option encoding"`:                                                           "assumed: same argument as makeOptions (C06/E5)",
-		`(*tcp.handshake).resetState/rand.Read`:                                                                      "environment: crypto/rand failure, not controlled by inbound frames",
-		`tcp.timeStampOffset/rand.Read`:                                                                              "environment: crypto/rand failure, not controlled by inbound frames",
-		`(*tcp.sender).sendData/"FIN segments must be the final segment in the write list."`:                        "assumed: Write rejects data after Shutdown in the same sndBufMu critical section that queued the FIN (C02/W4)",
-		`(*tcp.sender).sendData/"github.com/brewlin/net-protocol queues FIN segments without data."`:                "assumed: the only FIN segment is the zero-length one queued by Shutdown (C02/W4)",
+		`(*stack.NIC).removeEndpointLocked/"Reference count dropped to zero before being removed"`:   "assumed: the count reaches zero only after RemoveAddress/getRef/findEndpoint cleared holdsInsertRef; the replace path of addAddressLocked runs only after tryIncRef failed (reading, DESIGN.md C07/P1)",
+		`(*stack.linkAddrCache).checkLinkRequest/invalid cache entry state`:                          "exhaustive: rule P1-enum shows the switch covers every entryState constant",
+		`(*stack.linkAddrCache).get/invalid cache entry state`:                                       "exhaustive: rule P1-enum shows the switch covers every entryState constant",
+		`(*stack.linkAddrEntry).changeState/invalid state transition`:                                "typestate: C12/T2 shows every changeState call site requests an allowed transition",
+		`(*stack.linkAddrEntry).changeState/invalid state`:                                           "exhaustive: rule P1-enum shows the switch covers every entryState constant",
+		`(*tcp.endpoint).makeOptions/"unexpected option encoding"`:                                   "assumed: option encoders return multiples of 4 after padding (C06/E5 argument: optionPool buffers have len=cap=maxOptionSize)",
+		`tcp.makeSynOptions/"unexpected option encoding"`:                                            "assumed: same argument as makeOptions (C06/E5)",
+		`(*tcp.handshake).resetState/rand.Read`:                                                      "environment: crypto/rand failure, not controlled by inbound frames",
+		`tcp.timeStampOffset/rand.Read`:                                                              "environment: crypto/rand failure, not controlled by inbound frames",
+		`(*tcp.sender).sendData/"FIN segments must be the final segment in the write list."`:         "assumed: Write rejects data after Shutdown in the same sndBufMu critical section that queued the FIN (C02/W4)",
+		`(*tcp.sender).sendData/"github.com/brewlin/net-protocol queues FIN segments without data."`: "assumed: the only FIN segment is the zero-length one queued by Shutdown (C02/W4)",
 	}
 	usedPanic := map[string]bool{}
 	for _, fn := range funcs {
@@ -206,7 +206,11 @@ func propC07(c *Ctx) {
 	// roots with requirements: functions called only dynamically must have their
 	// requirements covered by an entry assumption or the contract rule
 	p2c := c.Rule("P2-contract", "slot agreement", "what a protocol's parse/handle methods need <= the MinimumPacketSize the NIC checked", 6)
-	contract := []struct{ typ, method string; param int; minFn string }{
+	contract := []struct {
+		typ, method string
+		param       int
+		minFn       string
+	}{
 		{"(*tcp.protocol)", "ParsePorts", 1, "(*tcp.protocol).MinimumPacketSize"},
 		{"(*udp.protocol)", "ParsePorts", 1, "(*udp.protocol).MinimumPacketSize"},
 		{"(*ipv4.protocol)", "ParseAddresses", 1, "(*ipv4.protocol).MinimumPacketSize"},
@@ -237,7 +241,10 @@ func propC07(c *Ctx) {
 		c.Check(need <= min, p2c, FuncName(fn), c.P.Pos(fn.Pos()), fmt.Sprintf("needs %d bytes <= MinimumPacketSize %d", need, min), fmt.Sprintf("reads %d bytes of the view but the NIC only guarantees MinimumPacketSize = %d", need, min))
 	}
 	// the entry assumptions equal the protocol minimum of the endpoint's protocol
-	for _, e := range []struct{ ep, minFn string; k int64 }{{"(*tcp.endpoint).HandlePacket", "(*tcp.protocol).MinimumPacketSize", 20}, {"(*udp.endpoint).HandlePacket", "(*udp.protocol).MinimumPacketSize", 8}} {
+	for _, e := range []struct {
+		ep, minFn string
+		k         int64
+	}{{"(*tcp.endpoint).HandlePacket", "(*tcp.protocol).MinimumPacketSize", 20}, {"(*udp.endpoint).HandlePacket", "(*udp.protocol).MinimumPacketSize", 8}} {
 		if mf := c.Fn(p2c, e.minFn); mf != nil {
 			min, ok := constReturn(mf)
 			c.Check(ok && min >= e.k, p2c, e.ep+"/assumption-backed", c.P.Pos(mf.Pos()), fmt.Sprintf("entry assumption %d <= MinimumPacketSize %d", e.k, min), fmt.Sprintf("entry assumption of %d bytes exceeds what MinimumPacketSize (%d) makes the NIC check", e.k, min))
@@ -551,7 +558,6 @@ func propC07Div(c *Ctx, an *Absint, funcs []*ssa.Function) {
 		})
 	}
 }
-
 
 // mentionsPacketParam: the requirement talks about a parameter that carries
 // packet bytes (View, VectorisedView, []byte, header types), as opposed to
